@@ -4,7 +4,7 @@ from math import comb
 from .common import *
 from .liecommon import *
 from ..frontend import AnchorMissing
-from ..poly import Poly, all_atoms
+from ..poly import Poly, all_atoms, deep_subs
 
 MOD = "cyecca.models.bezier"
 
@@ -121,6 +121,29 @@ def check_solver(w, rep, fn, key_solve, key_traj, n, nbc):
         sol = fs(wp0, wp1, T)
         ex = extract_linear_solve(sol)
         if ex is None:
+            if not any(a.kind in ("inv", "solve") for p_ in sol.flat() for a in all_atoms(p_)):
+                # an explicit (closed-form) solution: verify the boundary conditions directly on the Bernstein curve it defines
+                t = w.sym("tref")
+                ta = t.s().single_atom()
+                curve = bernstein(sol, t.s(), T.s(), n).cells[0][0]
+                allok = True
+                for e_, wp in ((0, wp0), (1, wp1)):
+                    for k in range(nbc):
+                        dk = curve
+                        for _ in range(k):
+                            dk = dk.diff(ta)
+                        val = deep_subs(dk, lambda a: (T.s() if e_ else Poly()) if a is ta else None)
+                        inst = "%s (closed form): derivative of order %d at t = %s equals the requested value" % (key_solve, k, "T" if e_ else "0")
+                        v = decide(val, wp.cells[k][0])
+                        if v == EQUAL:
+                            rep.ok("C18.boundary", inst)
+                        elif v == DIFFERENT:
+                            allok = False
+                            rep.fail("C18.boundary", inst, "the returned control points give %s there, requested %s" % (short(val, 60), short(wp.cells[k][0], 30)), where=W)
+                        else:
+                            allok = False
+                            rep.incomplete("C18.boundary", inst, "cannot decide", where=W)
+                return ft
             rep.incomplete("C18.boundary", "%s is inv(A) @ b" % key_solve, "solution is not of the form inv(A) b with a single constraint matrix", where=W)
             return ft
         A, b = ex
